@@ -129,6 +129,26 @@ def new_obj(path, cls, fields=None):
     return o
 
 
+class StateFields(dict):
+    """fields of a symbolic pre/post state: the dict holds EVERY attribute (constructor defaults + invariant fields, so
+    new_obj(..) copies all of them), while items() iterates the invariant fields only - the lemmas compare those"""
+
+    def __init__(self, defaults, inv):
+        dict.__init__(self, defaults)
+        dict.update(self, inv)
+        self.inv_keys = list(inv)
+
+    def items(self):
+        return [(k, self[k]) for k in self.inv_keys]
+
+    def update(self, other=(), **kw):
+        other = dict(other, **kw)
+        dict.update(self, other)
+        for k in other:
+            if k not in self.inv_keys:
+                self.inv_keys.append(k)
+
+
 def ctor_defaults(cls, *args, **kw):
     """primitive-valued attributes of a really constructed instance: a symbolic state that overrides only the
     fields of its invariant then still has every other attribute __init__ creates (caches, flags, names)"""
